@@ -187,7 +187,7 @@ def run(ctx: core.Check):
                 "zeros, bare point, values below one, exponent with e/E/+) and rendered to the string Python sees; every numeral goes "
                 "through sgnumber, hedge_interpret(bare), pun.I and every hedge word, and is paired with its negation, a power-of-ten "
                 "multiple and a rewriting of the same number. Non-trivial unless the numeral is a single non-zero digit; distinct on the text.")
-    ctx.assumptions = ["character-level parsing (split at e and ., strip, lower, float, int, Decimal) is not modelled: numerals are tokenised, the tie validates the glue",
+    ctx.assumptions = ["character-level parsing: Pun.Hedge.parse reads the string itself (split once at e, sign, split once at ., digits, signed exponent; proved inverse to render); Python's float/int/Decimal/strip/lower remain validated by the tie (underscores, inf/nan, non-ASCII digits are outside the quantifier)",
                        "binary64 rounding is not modelled: agreement within 16 ulp of max(|x|, half-width)",
                        "sqrt of the `count` hedge is supplied by the harness", "return_type='pbox' is not covered", "the hedges `order` and `between` are not part of the statement: tie only (order of a negative number raises AssertionError, mirrored)",
                        "integer numerals consisting of zeros only (sgnumber('0') = [-5,5]) are outside the significant-digit theorem's guard and are not judged",
@@ -287,6 +287,38 @@ def run(ctx: core.Check):
                 ctx.fail(dict(feat, check="endpoint"), case, f"hedge_interpret({text!r}) = [{lo!r}, {hi!r}] must start at the stated number {xf!r}")
         if len(ctx.samples) < 6 and rng.random() < 0.002:
             ctx.sample({"text": text, "impl": list(impl), "model": rep})
+    # character level: the model parses the STRING itself (Pun.Hedge.parse, proved inverse to render in Props.C20)
+    treqs, tmeta = [], []
+    MALFORMED = ["1e", "1.2.3", "1e5.5", "1.5e2e3", "--5", "5e+", ".", "e5", "-", "5.e", "0x10", "+-5", "5-", "1..", ".e1", "1e-",
+                 "12a", "a12", "1,5", "1e+-2", "..5", "-.", "+", "1.e.2"]
+    for n in nums[: ctx.scale(200, 4000)]:
+        t = render(n)
+        treqs.append("sgtext " + t); tmeta.append(("sg", t, n, None))
+        kw = rng.choice(HEDGES)
+        sq = math.sqrt(abs(float(value(n))))
+        treqs.append(f"hedgetext {kw.replace(' ', '_')} {t} {q(sq)}"); tmeta.append(("hedge", t, n, kw))
+        treqs.append("roundtrip " + t); tmeta.append(("rt", t, n, None))
+    for t in MALFORMED:
+        treqs.append("sgtext " + t); tmeta.append(("bad", t, None, None))
+    for (kind, t, n, kw), rep in zip(tmeta, core.model_batch("C20", treqs)):
+        ctx.count(("text", kind, t, kw), True, "text:" + kind)
+        if kind == "rt":
+            # what the model read, written back, is read by Python as the same number with the same last digit
+            a, b = impl_sg(t), impl_sg(rep) if not rep.startswith("err") else ("err", "model")
+            (ctx.tie_ok if (a[0] == "ok" and a == b) else (lambda: ctx.tie_bad("text-roundtrip", {"text": t}, list(a), rep)))()
+            continue
+        model = parse_model(rep)
+        if kind in ("sg", "bad"):
+            impl = impl_sg(t)
+            sc = max(abs(value(n)), F(10) ** last_digit_exp(n, False)) if n is not None else 1
+        else:
+            impl = impl_hedge(f"{kw} {t}")
+            x = value(n)
+            sc = max(abs(x), F(10) ** last_digit_exp(n, True), F(math.sqrt(abs(float(x)))) if kw == "count" else 0) * 10
+        if same(impl, model, sc):
+            ctx.tie_ok()
+        else:
+            ctx.tie_bad("text", {"text": t, "kw": kw}, list(impl), rep)
     # relations between results: nesting and commutation
     for n in nums:
         base = wire(n)
